@@ -18,6 +18,7 @@ scheme, matching ratios, scale ratio, grids, evolution points, solution settings
        programs: alphas given at Qref, thresholds (k?Thr*m?)^2, XIF, the ModEv abbreviations EXA/EXP/TRN
   [D4] matchings.nf_default docstring: default flow = 3 flavours below the charm matching scale, +1 for every matching
        scale passed
+  [D7] Legacy.fallback docstring ("the first not None argument") for the two spellings alphaqed / alphaem of the QED coupling
   [D6] src/ekobox/cards.py: the in-tree example theory card (n3lo_ad_variation all zero = no variation)
   [D5] extras/lh_bench_23/cfg.py: an in-tree theory card in the 0.13/0.14 layout (couplings.scale / num_flavs_ref /
        max_num_flavs, heavy.num_flavs_init / num_flavs_max_pdf / intrinsic_flavors)
@@ -75,9 +76,17 @@ def old_theory(mk, var):
         th["ModSV"] = MODSV[var.get("modsv", 0) % 3]
     if var.get("inv") != "absent":
         th["backward_inversion"] = INVERSION[var.get("inv", 0) % 2]
+    # alpha_em: every combination of value (zero allowed) / None / absent for the two legacy spellings
     aem = var.get("aem", "alphaqed")
-    if aem in ("alphaqed", "alphaem"):
-        th[aem] = mk.float("aem", 0.0075, positive=True)
+    spec = {"alphaqed": ("v", "-"), "alphaem": ("-", "v"), "none": ("-", "-"), "both": ("v", "v"), "qed_none": ("n", "v"), "em_none": ("v", "n"),
+            "both_none": ("n", "n")}[aem]
+    for key, how, leaf, default in (("alphaqed", spec[0], "aqed", 0.0075), ("alphaem", spec[1], "aem", 0.0078)):
+        if how == "v":
+            th[key] = mk.float(leaf, default)
+            if mk.symbolic:
+                assume(th[key], ">=0")
+        elif how == "n":
+            th[key] = None
     if var.get("qedref"):
         th["Qedref"] = mk.float("Qedref", 91.2, positive=True)
     if var.get("extras"):
@@ -124,8 +133,10 @@ def read_legacy_theory(th):
     s["alphas"] = th["alphas"]  # [D1],[D3] alpha_s at the reference scale Qref
     s["alphas.scale"] = th["Qref"]
     s["alphas.nf"] = th["nfref"]
-    if "alphaqed" in th or "alphaem" in th:
-        s["alphaem"] = th["alphaqed"] if "alphaqed" in th else th["alphaem"]
+    # [D7] Legacy.fallback docstring: "Return the first not None argument" (alphaqed, then alphaem), 0 when there is none
+    cands = [th.get("alphaqed"), th.get("alphaem")]
+    cands = [c for c in cands if c is not None]
+    s["alphaem"] = cands[0] if cands else 0.0
     for i, q in enumerate("cbt"):
         s["mass.%s" % q] = th["m" + q]  # [D1]
         s["matching_ratio.%s" % q] = th["k%sThr" % q]  # [D3] threshold = (k m)^2
@@ -372,8 +383,6 @@ def case_legacy_theory(log, items):
             got = read_current_theory(new)
             if th["HQ"] == "POLE":
                 want = {k: v for k, v in want.items() if not k.endswith(".scale") or k == "alphas.scale"}
-            if "alphaqed" not in th and "alphaem" not in th:
-                want.pop("alphaem", None)
             compare_settings(log, label, want, got, "new_theory", "replay_legacy_theory", rk)
             log.twin(label)
             log.collect_ctx()
@@ -544,6 +553,97 @@ def _upgrade(v1, v2, version, raw_th, raw_op, raw_th_again):
     return new_th, new_op
 
 
+# ---- metadata of data versions 1 / 2 ------------------------------------------------------------------------------
+def v_metadata(mk, var):
+    """metadata.yaml of an archive written by 0.13 / 0.14: the grid sits under bases.xgrid in XGrid.dump() form"""
+    n = 3
+    xs = [mk.float("x%d" % i, [1e-3, 0.1, 1.0][i], positive=True) for i in range(n)]
+    mk.increasing(xs)
+    return {"origin": [mk.float("mu20", 2.7225, positive=True), mk.int("nf0", 4, 3, 6)],
+            "bases": {"xgrid": {"grid": xs, "log": mk.bool("xlog", False, tag="bool")}, "_inputgrid": None, "_inputpids": None, "_targetgrid": None,
+                      "_targetpids": None},
+            "version": "0.13.5" if var["version"] == 1 else "0.14.2", "data_version": 1}
+
+
+def _load_metadata_model(md, raw):
+    """Metadata.load with the file system replaced: yaml.safe_load returns `raw`"""
+    import types
+
+    md.yaml = types.SimpleNamespace(safe_load=lambda text: raw, safe_dump=None)
+    md.InternalPaths = lambda p: types.SimpleNamespace(metadata=types.SimpleNamespace(read_text=lambda encoding=None: ""))
+    return md.Metadata.load("/nonexistent")
+
+
+def case_metadata(log, items):
+    import importlib
+
+    _start()
+    dl, ip, rc, mt, v1, v2 = _setup()
+    md = importlib.import_module("eko.io.metadata")
+    CS.install_types(md.Metadata)
+    log.encode(md.Metadata.load, v1.update_metadata, v2.update_metadata, ip.XGrid.load, ip.XGrid.__init__, dl.load_field)
+    for var in items:
+        label = _label("metadata-v%d" % var["version"], var)
+        rk = {"var": var}
+        kp = "v%d.update_metadata:" % var["version"]
+
+        def run():
+            mk = CS.SymMk("py")
+            ref = v_metadata(mk, var)
+            try:
+                new = _load_metadata_model(md, v_metadata(mk, var))
+            except Exception as e:
+                if _engine_exc(e):
+                    raise
+                _decide(log, prove_formula(z3.BoolVal(False), "%s Metadata.load is computed (raised %s: %s)" % (label, type(e).__name__, str(e)[:80])),
+                        kp + "raises", (MOD, "replay_metadata", dict(rk, name=None)))
+                return
+            checks = [("xgrid.log", new.xgrid.log, ref["bases"]["xgrid"]["log"]), ("xgrid.points", list(new.xgrid.raw), list(ref["bases"]["xgrid"]["grid"])),
+                      ("origin", list(new.origin), list(ref["origin"])), ("data_version", new.data_version, var["version"]),
+                      ("version", new.version, ref["version"])]
+            for name, got, want in checks:
+                c = CS.Cmp()
+                c.same(got, want, name)
+                v = prove_formula(c.formula() if not c.mismatch else z3.BoolVal(False),
+                                  "%s loaded metadata: %s is the archive's %s" % (label, name, c.mismatch[:1] or ""))
+                _decide(log, v, kp + name, (MOD, "replay_metadata", dict(rk, name=name)))
+            log.twin(label)
+            log.collect_ctx()
+
+        _r, pm = explore(run, max_paths=64)
+        log.path_stats(pm)
+
+
+def replay_metadata(point, var, name):
+    """REAL Metadata.load on a metadata.yaml written to a temporary directory"""
+    import pathlib
+    import tempfile
+
+    import numpy as np
+    import yaml
+    from eko.io.metadata import Metadata
+
+    ref = v_metadata(CS.ConcMk(point, "py"), var)
+    with tempfile.TemporaryDirectory() as d:
+        (pathlib.Path(d) / "metadata.yaml").write_text(yaml.safe_dump(ref), encoding="utf-8")
+        try:
+            new = Metadata.load(d)
+        except Exception as e:
+            return {"detail": "Metadata.load of a data-version-%d archive raised %s: %s" % (var["version"], type(e).__name__, e)} if name is None else None
+    if name is None:
+        return None
+    want_grid, want_log = ref["bases"]["xgrid"]["grid"], ref["bases"]["xgrid"]["log"]
+    bad = {"xgrid.log": bool(new.xgrid.log) is not bool(want_log),
+           "xgrid.points": len(new.xgrid.raw) != len(want_grid) or not np.allclose(new.xgrid.raw, want_grid, rtol=1e-12, atol=0),
+           "origin": _num_differs(float(new.origin[0]), float(ref["origin"][0])) or int(new.origin[1]) != int(ref["origin"][1]),
+           "data_version": int(new.data_version) != var["version"], "version": new.version != ref["version"]}[name]
+    if bad:
+        return {"detail": "data version %d metadata (version %s, bases.xgrid = {grid: %r, log: %r}, origin %r): loaded %s is wrong: xgrid.log=%r, points=%r, "
+                "origin=%r, data_version=%r" % (var["version"], ref["version"], want_grid, want_log, ref["origin"], name, new.xgrid.log,
+                                                list(new.xgrid.raw), new.origin, new.data_version)}
+    return None
+
+
 def case_versions(log, items):
     _start()
     reals = [real_settings("versions", v) if not CS._INSTALLED else None for v in items]
@@ -698,17 +798,19 @@ def main():
         "symbolic numeric leaves per named setting; configuration keys (HQ, ModEv, ModSV, inversion, grid key, optional keys) enumerated.")
     chk.bounds = [
         "legacy theory cards: PTO 0..3, QED 0..2, nfref/nf0 3..6 as symbolic integers; couplings, scales, masses, ratios, XIF symbolic reals > 0; "
-        "HQ in {POLE, MSBAR}; alpha_em given as alphaqed / alphaem / absent; Qedref present / absent; optional keys (n3lo_ad_variation, PTO_matching, "
+        "HQ in {POLE, MSBAR}; alpha_em: alphaqed and alphaem each a value >= 0 (zero included) / None / absent, in 7 combinations; Qedref present / absent; optional keys (n3lo_ad_variation, PTO_matching, "
         "use_fhmruvv) all present / all absent",
         "legacy operator cards: x grid of 3 symbolic points, 1..2 evolution points given as mugrid / Q2grid / mu2grid, all 11 ModEv spellings, "
         "ModSV in {None, exponentiated, expanded, key absent}, backward_inversion in {exact, expanded, key absent}, nf0 given / None; matching scales k_c m_c < k_b m_b < k_t m_t",
         "data versions 1 and 2: theory and operator cards in the 0.13/0.14 layout of extras/lh_bench_23/cfg.py, call sequence of EKO.theory_card / "
-        "EKO.operator_card; v1: use_fhmv / use_fhmruvv / neither, no matching_order key; v2: use_fhmruvv / neither, matching_order present",
+        "EKO.operator_card; metadata.yaml of versions 0.13.5 / 0.14.2 through the real Metadata.load (grid of 3 symbolic points, log flag symbolic, "
+        "origin symbolic; yaml and the path object stubbed, real files in the replay); v1: use_fhmv / use_fhmruvv / neither, no matching_order key; v2: use_fhmruvv / neither, matching_order present",
     ]
     chk.out_of_claim = [
-        "archives (tar/yaml/npy), operators, Metadata.load and v1/v2.update_metadata: no documentation of the old metadata layout in the repository",
+        "archives (tar/npy) and operators; the old metadata layout is taken as what v1/v2.update_metadata read: the current fields with the grid in "
+        "XGrid.dump() form under bases.xgrid",
         "legacy keys without a documented meaning in the repository: em_running (derived from Qedref by the converter), WHICH method is chosen when "
-        "ModSV / backward_inversion are absent (the upgrade must succeed and carry every other setting), both alphaqed and alphaem present, the QED entry of ev_op_max_order, nfref = None, FNS/NfFF/IC/IB/MaxNf*",
+        "ModSV / backward_inversion are absent (the upgrade must succeed and carry every other setting), the QED entry of ev_op_max_order, nfref = None, FNS/NfFF/IC/IB/MaxNf*",
         "xgrid.log of the upgraded operator card (C40 reports that interpolation_is_log is not transferred to the grid)",
         "evolution points exactly on a matching scale (either number of flavours accepted); unsorted matching scales",
         "n_integration_cores (not a physical setting; v1 resets it to 1)",
@@ -722,8 +824,11 @@ def main():
         for aem in ("alphaqed", "alphaem", "none"):
             for extras in (False, True):
                 th_items.append({"HQ": hq, "aem": aem, "extras": extras, "qedref": extras})
+    for i, aem in enumerate(("both", "qed_none", "em_none", "both_none")):
+        th_items.append({"HQ": ["POLE", "MSBAR"][i % 2], "aem": aem, "extras": bool(i % 2), "qedref": False})
     chk.case("legacy.theory.a", case_legacy_theory, items=th_items[:6])
-    chk.case("legacy.theory.b", case_legacy_theory, items=th_items[6:])
+    chk.case("legacy.theory.b", case_legacy_theory, items=th_items[6:12])
+    chk.case("legacy.theory.c", case_legacy_theory, items=th_items[12:])
     op_items = [{"modev": k, "modsv": k, "inv": k, "grid": ["mugrid", "Q2grid", "mu2grid"][k % 3], "nmu": 1, "HQ": ["POLE", "MSBAR"][k % 2]} for k in range(len(MODEV))]
     for g in ("mugrid", "Q2grid", "mu2grid"):
         op_items.append({"modev": 0, "grid": g, "nmu": 1, "nf0": "none"})
@@ -747,6 +852,7 @@ def main():
                 v_items.append({"version": version, "k": k, "fh": "use_fhmruvv", "HQ": "MSBAR"})
     for i in range(0, len(v_items), 4):
         chk.case("versions.%d" % (i // 4), case_versions, items=v_items[i:i + 4])
+    chk.case("versions.metadata", case_metadata, items=[{"version": 1}, {"version": 2}])
     try:
         return chk.run()
     finally:
